@@ -28,7 +28,7 @@ DEFAULTS = ["http://d/", "http://a/"]
 
 
 # local parts that repeat a namespace URI (a URL carried inside a URL)
-NESTED_LOCALS = ["r?u=http://a/z", "http://other/x",
+NESTED_LOCALS = ["r?u=http://a/z", "http://other/x", "vocab",
                  # local parts with line ends: a name is split at its first colon and nowhere else
                  "a\n", "a\r\n", "a\nb", "\na", "a:b\n"]
 
